@@ -245,7 +245,7 @@ prop("C07", [sel("rotate"), sel("rawbounds", fn=REMOVE + r"|<rule>"), sel("drain
      declined=["the compaction arithmetic of DrainCol's destructor and the order of yielded elements (DESIGN 2.1; the latter follows from C09 for the embedded Col cursor)"])
 prop("C08", L_ROWCUR() + L_VIEWS() + L_INV() + [sel("zero", fn=CTORS)],
      "Row cursors: (R-CURSOR) for Rows and RowsMut each of next, next_back, nth, nth_back, last, count, size_hint is evaluated path-wise over canonical polynomials and slice intervals and its (result, remaining slice) must equal the ideal strided-cursor update with item width cols and gap skip_cols; because the cursor state is one slice the ideal post-state is unique, so per-function conformance plus the recorded two-line induction covers every interleaving and every n (the overflow flag is a path atom); (R-TAKE) no read of the cursor slice after mem::take; (R-OVF) nth/nth_back multiply n with overflow detection that reaches the emptying branch; (R-LAYOUT) rows()/rows_mut() of the three receivers start the cursor on the whole backing slice with cols = num_cols, skip_cols = stride - num_cols, and the window constructors hand each view the slice, dimensions and stride this assumes; the owned array's shape invariant (R-ZERO, R-UNWIND, R-LEAK*, R-STALE of C01) is the premise of 'num_rows() rows'.",
-     declined=["fold/rfold are std's provided methods over next/next_back"])
+     declined=["fold/rfold and the other provided methods are std's own over next/next_back unless overridden; an override that reads the cursor's fields in an unrecognised way is listed as undecided, not judged"])
 prop("C09", L_COLCUR() + [sel("guard", rules=["R-ARITH"], fn=COLCUR)] + L_VIEWS() + L_INV() + [sel("zero", fn=CTORS)],
      "Column cursors: R-CURSOR (as C08 with item width 1 and gap skip) for Col and ColMut; R-TAKE, R-OVF as for rows; (R-ARITH) indexing multiplies with overflow detection and uses a checked slice index; (R-GUARD) col(c)/col_mut(c) panic for c >= num_cols on the three receivers; (R-LAYOUT, R-UNITS) col()/col_mut() and the shared get_col_params start the cursor at cell c of the first row with skip = stride - 1 and end it in the last row (empty only for an empty receiver); window constructors and the shape invariant as in C08.")
 prop("C10", [sel("nonzero", fn=r"^FlattenExact|<rule>")] + L_CELLS() + L_VIEWS() + L_INV() + [sel("zero", fn=CTORS), sel_dyn(A_CELLS)],
@@ -280,3 +280,19 @@ prop("C19", [sel("serde"), sel("zero", fn=r"visit_|Deserialize|Visitor|Seed|serd
 prop("C20", [sel("conv"), sel("layout", fn=r"TooDeeView(Mut)?::new|<rule>"), sel("zero", fn=CTORS), sel("deleg", fn=r"from_box"), sel("units", fn=CTORS), sel("units", desc=r"(from_vec|from_box|new|init)\(")],
      "Constructors, structural clauses: (R-ZERO) new/init/from_vec/TooDeeView::new/TooDeeViewMut::new and every other construction site only build arrays whose dimensions are both zero or both non-zero; (R-UNITS u5) fields are initialised from parameters of their own unit (no exchanged dimensions, also in From<view>); (R-DELEG) from_box forwards to from_vec in order; (R-CONV) into_iter / From<TooDee> for Vec and Box move the Vec whole, From<view> x2 append view.rows() front to back and take both dimensions from the view's own getters, Clone/PartialEq/Hash are compiler-derived; (R-LAYOUT) the slice constructors of the views keep exactly the prefix num_cols*num_rows of the given buffer (L-PREFIX, exact extent).",
      declined=["row-major equality of contents as values; Hash/Eq agreement is the derive's contract"])
+
+# explanations: clauses added in round 6 (kept here so that MANIFEST / evidence texts follow the selections)
+_DYN = " Dependency-driven selection (analysis/reach.py): the conformance findings (R-LAYOUT, R-NTH, R-CURSOR, R-TAKE, R-OVF, R-FLATSEQ, R-FLAT, R-NONZERO, R-UNITS) of every function that the operations named by this property reach in the current tree's call graph (trait calls fanned out to all implementations) are reported under this property as well."
+for _pid in ("C01", "C04", "C10", "C13", "C14", "C15", "C16", "C17"):
+    PROPS[_pid]["explanation"] += _DYN
+PROPS["C01"]["explanation"] += " The sentence 'the cells equal those of a rows-of-cells model driven by the same history' covers the in-place algorithms: the structural clauses of C13-C17 (R-SORTSHAPE, R-SORTKEY, R-DELEG, R-COPYSHAPE, R-FLIPSHAPE, R-FILL, R-LOCKSTEP, R-NOSHIFT, R-GUARD of the owned array and the provided methods) are selected here too."
+for _pid in ("C08", "C09"):
+    PROPS[_pid]["explanation"] += " Overrides: every method of the cursor's Iterator / DoubleEndedIterator / ExactSizeIterator impls is enumerated; `len` is decided like size_hint (the number of remaining items under the cursor invariant, division by zero included); any other override of a provided method must either step the cursor only through its own judged methods in the direction of its family (fold / for_each / count .. from the front, rfold / rfind .. from the back) or walk the slice with a recognised chunking idiom (chunks(stride) + leading cells, rchunks(stride) + trailing cells; chunks_exact / windows / a wrong step are violations)."
+PROPS["C10"]["explanation"] += " Overrides of FlattenExact: count / len are decided against the denotation like size_hint; any further override belongs to the direction family of the trait that declares it (R-FLAT f2)."
+PROPS["C12"]["explanation"] += " The drain's own iterator and destructor are included (R-HIDE: every ptr::read of the drain happens while the buffer is hidden, whichever end is consumed first; R-DRAINSTEP; R-RESTORE)."
+for _pid in ("C05", "C07", "C11", "C12", "C01"):
+    PROPS[_pid]["explanation"] += " R-RESTORE also decides that the destructor drops what the caller did not consume before the compaction overwrites it (exhaustion dominates the block moves on the normal path) and that a restorer which itself steps the cursor is entered, on the normal path, only with the cursor exhausted."
+PROPS["C20"]["explanation"] += " Hand-written Clone / PartialEq / Hash are decided structurally: clone builds every field from the same field, an overridden clone_from writes all three fields (or *self) on every path, eq looks at all three fields of both operands, hash feeds nothing that eq does not compare."
+for _pid in ("C06", "C11", "C01"):
+    PROPS[_pid]["explanation"] += " R-ARITH on TooDee::reserve / reserve_exact: the requested capacity (an iterator's claimed length) enters no plain or wrapping sum, so Vec's capacity-overflow panic is reached before insert_* lower the length."
+PROPS["C14"]["explanation"] += " copy_within placement identities: for every row_pair_mut(s, d) the distance d - s equals dest.1 - src.0.1, the per-row copy takes columns [src.0.0, src.1.0) to [dest.0, dest.0 + width), the same-row case is row.copy_within(src.0.0..src.1.0, dest.0) - as polynomial identities over the parameters; an endpoint compared strictly with its bound (an empty rectangle rejected) is reported as over-strict."
